@@ -102,6 +102,13 @@ func (db *Backend) ListBucket(name string, prefix *gofakes3.Prefix, page gofakes
 
 	var lastMatchedPart string
 
+	if page.Marker != "" && prefix.Match(page.Marker, &match) && match.CommonPrefix {
+		// The marker is a key inside a common prefix that an earlier page has
+		// already reported; the remaining keys of that group must not
+		// produce the prefix a second time.
+		lastMatchedPart = match.MatchedPart
+	}
+
 	for iter.Next() {
 		item := iter.Value().(*bucketObject)
 
